@@ -83,8 +83,12 @@ def finish(prop, tier, rules, explanation, assumptions, trusted_base, t0, extra=
             kmap[(k.get("rule"), k.get("key"))] = k
     findings = []
     known_hit = []
+    seen_keys = set()
     for r in rules:
         for f in r.findings:
+            if (f.rule, f.key) in seen_keys:
+                continue
+            seen_keys.add((f.rule, f.key))
             kk = kmap.get((f.rule, f.key))
             if kk is not None:
                 known_hit.append((f, kk))
